@@ -1,6 +1,7 @@
 package c08
 
 import (
+	"context"
 	"fmt"
 	"runtime"
 	"sort"
@@ -68,7 +69,7 @@ func genAPI(t *rapid.T) *payload {
 		for i := 0; i < n; i++ {
 			kinds := []string{"run", "run", "run", "runctx", "set", "set", "set", "get", "get", "get", "isdef", "getall", "getall", "clone", "clone", "getp", "getp", "isdefp"}
 			if p.Free {
-				kinds = append(kinds, "setin", "setin", "setin", "replace", "set", "get")
+				kinds = append(kinds, "setin", "setin", "setin", "replace", "set", "get", "runcancel", "runcancel")
 			}
 			op := apiOp{Op: kinds[rapid.IntRange(0, len(kinds)-1).Draw(t, "op")]}
 			switch op.Op {
@@ -100,6 +101,11 @@ func genAPI(t *rapid.T) *payload {
 				op.Val = in[op.Name]
 			case "replace":
 				op.N = int64(100 + g)
+			case "runcancel":
+				// a RunContext whose context expires before, during or after
+				// the run; whatever it left behind, the calls that follow on the
+				// same object must not overlap with its VM
+				op.N = int64(rapid.IntRange(0, 400).Draw(t, "cancelAfterMicros"))
 			}
 			ops = append(ops, op)
 		}
@@ -338,6 +344,10 @@ func doOp(obj *tengo.Compiled, g int, op apiOp) (o apiObs) {
 		o.desc = runOnce(obj, false)
 	case "runctx":
 		o.desc = runOnce(obj, true)
+	case "runcancel":
+		ctx, cancel := context.WithTimeout(context.Background(), time.Duration(op.N)*time.Microsecond)
+		_ = obj.RunContext(ctx) // context error, script error or nil: all legitimate
+		cancel()
 	case "set", "setin":
 		if err := obj.Set(op.Name, bridge.ToObject(op.Val, map[int]tengo.Object{})); err != nil {
 			o.panics = "Set failed: " + err.Error()
